@@ -43,6 +43,9 @@ fn canonical(grm: &YaccGrammar<u32>) -> Option<(usize, bool)> {
                 if d >= pr.len() { continue; }
                 if let Symbol::Rule(r) = pr[d] {
                     let f = first_of(&pr[d + 1..], &la);
+                    // an LR(1) item has one lookahead token: where no token can follow (the rest of the production derives
+                    // no sentence) there is no item to add
+                    if f.is_empty() { continue; }
                     for q in grm.rule_to_prods(r) {
                         if !is.contains_key(&(usize::from(*q), 0)) { changed = true; }
                         let e = is.entry((usize::from(*q), 0)).or_default();
@@ -240,6 +243,11 @@ pub fn late_family(seed: u64) -> String {
 }
 
 pub fn search(_tag: &str, tier: &str) -> Option<Value> {
+    // rules that derive no sentence: no token can follow them, and the closure must not add items without lookaheads
+    for g in ["%start S\n%%\nS: S A S;\nA: 'a';", "%start S\n%%\nS: S S S;", "%start S\n%%\nS: 'b' S A | 'c';\nA: A 'a';", "%start S\n%%\nS: 'b' 'a' S A | 'd' 'c' | A 'c' 'd';\nA: A 'b' 'b';"] {
+        let o = run(g);
+        if o.fails { return Some(witness("c02_lr1", json!({"grammar": g}), &o)); }
+    }
     for g in ["%start S\n%%\nS: 'p' P 'x' | 'p' Q 'y' | 'q' A 'd' | 'q' B 'e' | 'r' 'r' 'r' P 'e' | 'r' 'r' 'r' Q 'd';\nP: 'm' A;\nQ: 'm' B;\nA: 'c';\nB: 'c';\n"] {
         let o = run(g);
         if o.fails { return Some(witness("c02_lr1", json!({"grammar": g}), &o)); }
